@@ -1316,6 +1316,19 @@ def register_all(M):
         return text_cmp(c, m, [x.fields[0], y.fields[0]])
     M.add(r"<Option<(?:String|&str|PathBuf)> as Ord>::cmp", opt_text_cmp)
 
+    def range_contains(c, m, a):
+        r, x = deref(a[0]), deref(a[1])
+        lo, hi = deref(r.fields[0]), deref(r.fields[1])
+        signed = x.ty in SIGNED
+        ge = (x.z() >= lo.z()) if signed else z3.UGE(x.z(), lo.z())
+        if m.group(0).find("RangeInclusive") >= 0:
+            up = (x.z() <= hi.z()) if signed else z3.ULE(x.z(), hi.z())
+        else:
+            up = (x.z() < hi.z()) if signed else z3.ULT(x.z(), hi.z())
+        return sbool(z3.simplify(z3.And(ge, up)))
+    M.add(r"(?:std::ops::|core::ops::)?Range(?:Inclusive)?::<(?:u8|u16|u32|u64|usize|i8|i16|i32|i64|isize|char)>::contains::<.*>", range_contains)
+    M.add(r"core::bool::<impl bool>::then_some::<.*>", lambda c, m, a: some(a[1]) if c.decide(a[0].v if a[0].concrete else a[0].z()) else none())
+    M.add(r"core::bool::<impl bool>::then::<.*>", lambda c, m, a: some(c.call_callable(a[1], [])) if c.decide(a[0].v if a[0].concrete else a[0].z()) else none())
     M.add(r"<(?:std::cmp::)?Ordering as PartialEq>::eq", lambda c, m, a: SBool(deref(a[0]).variant == deref(a[1]).variant))
     M.add(r"<(?:std::cmp::)?Ordering as PartialEq>::ne", lambda c, m, a: SBool(deref(a[0]).variant != deref(a[1]).variant))
 
